@@ -59,6 +59,8 @@ def cases(draw, tier):
         else:
             bulk = "matrix"
             unit = draw(st.sampled_from([1.0, 1.0, 1.0, 1e-3, 1e-6, 1e3]))
+            if draw(st.integers(0, 9)) == 0:
+                unit = "float32"  # single-precision readings on a level of 1000
             if isinstance(sc, dict) and sc["cls"].startswith("SecondMoment") and draw(st.integers(0, 2)) == 0:
                 unit = "level_9e9"  # readings of a 9.19 GHz standard: a huge level, which this user score depends on
     mil = D.weighted(draw, [(6, st.integers(2 * msl, 2 * msl + 14)), (2, st.just(2 * msl)), (1, st.just(1000))])
@@ -84,7 +86,11 @@ def cases(draw, tier):
         cov = isinstance(sc, dict) and "GaussianCovCost" in str(sc)
         X, _ = draw(D.structured_matrix(n, p, boundary_positions=(1, msl, n - msl, n - 2), max_shifts=1,
                                         **({"exact": False, "min_noise_scale": 0.5} if cov else {})))
-        if unit == "level_9e9":
+        if unit == "float32":
+            X = [[float(np.float32(v + 1000.0)) for v in row] for row in X]
+            case["as_float32"] = True
+            case["n_train"], case["history"] = None, None
+        elif unit == "level_9e9":
             X = [[v + 9.19e9 for v in row] for row in X]
         elif unit != 1.0:
             X = [[v * unit for v in row] for row in X]
@@ -126,6 +132,8 @@ def check(case):
         Xtrain = Xtrain.copy()
         Xpred = Xtrain
     history = case.get("history") if case.get("n_train") != "same_buffer" else None
+    if case.get("as_float32"):
+        Xtrain = Xpred = X.astype(np.float32)  # the detector gets single precision, the reference the same numbers as float64
     try:
         return _check(case, params, X, n, p, msl, mil, Xtrain, Xpred, history)
     except RecursionError:
